@@ -220,20 +220,39 @@ func (c *Ctx) ruleInstanceIdentity() {
 	} else {
 		r.Bad("C09-INSTANCE-IDENTITY", "Equal", "directives are identified by file NAME and position: two inclusions of one file give 'equal' directives, so e.g. the Path of the second inclusion is taken for a repetition of the first", c.pos(f.Decl.Pos()))
 	}
-	rf := c.fn("core", "readFile")
-	if rf != nil {
-		fresh := false
-		ast.Inspect(rf.Decl.Body, func(n ast.Node) bool {
-			if call, ok := n.(*ast.CallExpr); ok && strings.HasSuffix(exprString(call.Fun), "NewFile") {
-				fresh = true
+	// every INCLUDE builds a new File: in the function that reads the included file (a path-taking read primitive
+	// outside package kit) the content goes into an fs.NewFile call of the same function
+	n := 0
+	for _, g := range c.libFns() {
+		if g.Pkg.Types.Name() == "kit" {
+			continue
+		}
+		reads, fresh := false, false
+		ast.Inspect(g.Decl.Body, func(nd ast.Node) bool {
+			if call, ok := nd.(*ast.CallExpr); ok {
+				if cal := callee(g.Pkg, call); cal != nil && cal.Pkg() != nil {
+					if cal.Pkg().Path() == "os" && (cal.Name() == "ReadFile" || cal.Name() == "Open") {
+						reads = true
+					}
+					if cal.Name() == "NewFile" && strings.HasSuffix(cal.Pkg().Path(), "/fs") {
+						fresh = true
+					}
+				}
 			}
 			return true
 		})
-		if fresh {
-			r.Ok("C09-INSTANCE-IDENTITY", "readFile", "every INCLUDE builds a new fs.File", c.pos(rf.Decl.Pos()))
-		} else {
-			r.Bad("C09-INSTANCE-IDENTITY", "readFile", "included files are not fresh File objects", c.pos(rf.Decl.Pos()))
+		if !reads {
+			continue
 		}
+		n++
+		if fresh {
+			r.Ok("C09-INSTANCE-IDENTITY", "new File | "+g.Name(), "every INCLUDE builds a new fs.File from what it read", c.pos(g.Decl.Pos()))
+		} else {
+			r.Bad("C09-INSTANCE-IDENTITY", "new File | "+g.Name(), "included files are not fresh File objects", c.pos(g.Decl.Pos()))
+		}
+	}
+	if n == 0 {
+		r.Undecided("C09-INSTANCE-IDENTITY", "new File", "no function reads an included file", "")
 	}
 }
 
